@@ -68,7 +68,7 @@ impl Property for C02 {
         vec!["oracle M validated against the recorded C++ cases".into(), "membership modulo 2*pi within 1e-6 rad per joint".into()]
     }
     fn plan(&self, tier: Tier) -> Plan {
-        Plan { workers: tier.pick(4, 16), cases_per_worker: tier.pick(15_000, 200_000), max_shrink_iters: 4000 }
+        Plan { workers: tier.pick(4, 16), cases_per_worker: tier.pick(150_000, 1_000_000), max_shrink_iters: 4000 }
     }
     fn selftest(&self) -> Result<serde_json::Value, String> {
         crate::selftest::model_vs_recorded()
